@@ -195,6 +195,12 @@ type world struct {
 	maxData    int64 // highest data page index acquired (observed at the page factory)
 	insideGC   bool
 	gcRollover bool
+
+	// messages a reader got earlier and still holds (hold_test.go)
+	held       []*heldMsg
+	heldEvents map[string]bool // what happened since the retained slices were verified last (class counters only)
+	pageOf     map[int64]int64 // modelled data page of a sequence (generation / class counters only)
+	holdSerial int
 }
 
 func (w *world) logf(format string, args ...any) { w.ops = append(w.ops, fmt.Sprintf(format, args...)) }
@@ -273,6 +279,12 @@ func scan(q queue.Queue, byID map[uint64]msg, assigned map[int64]uint64, pending
 
 func (w *world) checkErr(where string) error {
 	if err := scan(w.q, w.byID, w.assigned, &w.pending, where); err != nil {
+		return err
+	}
+	// the scan above is "another reader": it got every message above the acknowledged position
+	// while the retained slices were held
+	w.noteHeld("full-scan-by-another-reader")
+	if err := w.verifyHeld(where); err != nil {
 		return err
 	}
 	if app := w.q.AppendedSeq(); app != int64(w.okPuts)-1 {
@@ -360,6 +372,7 @@ func (w *world) tryPut(m msg) (putErr, violation error) {
 		if after := w.q.AppendedSeq(); after != before {
 			return err, fmt.Errorf("an append that failed (%v) moved the appended sequence from %d to %d", err, before, after)
 		}
+		w.noteHeld("failed-append")
 		return err, nil
 	}
 	after := w.q.AppendedSeq()
@@ -371,11 +384,15 @@ func (w *world) tryPut(m msg) (putErr, violation error) {
 		return nil, fmt.Errorf("sequence %d held message %d and was handed out again to a new append", after, prev)
 	}
 	w.assigned[after] = m.id
+	w.noteHeld("append")
 	if w.room() == m.size {
 		w.classes["put-exact-fit(page full)"]++
+		w.noteHeld("append-filling-the-page-exactly")
 	} else if w.room() < m.size {
 		w.classes["put-exceeds-room(roll-over)"]++
+		w.noteHeld("roll-over-append")
 	}
+	w.pageOf[after] = w.maxData
 	w.advance(m.size)
 	w.lastSize = m.size
 	w.noteSize(m.size)
@@ -395,6 +412,13 @@ func (w *world) putMsg(m msg) error {
 }
 
 func (w *world) opPut() {
+	if w.heavy && w.room() <= nearEnd && len(w.held) < 3 && rapid.IntRange(0, 1).Draw(w.t, "holdAtPageEnd") == 0 {
+		// the write cursor is at the end of its data page: a reader takes messages before the
+		// appends that fill the page / roll over to the next one
+		if w.holdSome() {
+			w.classes["hold-before-append-at-page-end"]++
+		}
+	}
 	m := w.newMsg(w.genPutSize())
 	w.logf("put id=%d size=%d", m.id, m.size)
 	if err := w.putMsg(m); err != nil {
@@ -415,6 +439,7 @@ func (w *world) opOverlappingPut() {
 	}
 	w.logf("overlappingPut A=%d(%dB) B=%v", a.id, a.size, bs)
 	var once sync.Once
+	var seamHeldErr error
 	done := make(chan error, 1)
 	started := false
 	qsim.SetHook(func(op, path string, before bool) {
@@ -439,10 +464,16 @@ func (w *world) opOverlappingPut() {
 			case <-time.After(3 * time.Millisecond):
 				w.classes["overlap-B-blocked-until-A-done"]++
 			}
+			// appender A has reserved its space and not stored anything yet (B may be anywhere):
+			// what the readers hold is untouched (read-only pass over the retained slices)
+			seamHeldErr = w.peekHeld("at the seam of an overlapping append")
 		})
 	})
 	errA := w.q.Put(a.bytes())
 	qsim.SetHook(nil)
+	if seamHeldErr != nil {
+		w.fatalf("%v", seamHeldErr)
+	}
 	if !started {
 		w.fatalf("harness: seam not reached")
 	}
@@ -461,6 +492,7 @@ func (w *world) opOverlappingPut() {
 	}
 	w.lastSize = -1
 	w.classes["overlapping-put"]++
+	w.noteHeld("overlapping-append")
 	w.check("after the overlapping appends")
 	// appender B waited for each of its appends to return: its messages keep their order
 	// (messages of less than 8 bytes with equal bytes are interchangeable and not ordered here)
@@ -489,6 +521,7 @@ func (w *world) opBoundaryReopen() {
 	page := int64(rapid.IntRange(1, 2).Draw(w.t, "indexPage"))
 	start := page*perPage - 1 - int64(k)
 	w.logf("setAppendedSeq %d (fresh queue), %d appends up to the last slot of index page %d, reopen, append", start, k, page-1)
+	w.dropHeld("setAppendedSeq")
 	w.q.SetAppendedSeq(start)
 	w.okPuts = int(start) + 1
 	w.firstSeq = start + 1
@@ -536,6 +569,7 @@ func (w *world) opReopen() {
 	if c := w.tailClass(); c != "" {
 		w.classes["reopen-with-"+c]++
 	}
+	w.dropHeld("close") // Close unmaps every page: nothing a reader holds may be touched afterwards
 	w.q.Close()
 	w.open()
 	w.classes["reopen"]++
@@ -547,6 +581,7 @@ func (w *world) ackTo(s int64) error {
 	if got := w.q.AcknowledgedSeq(); got != s {
 		return fmt.Errorf("acknowledged sequence is %d after SetAcknowledgedSeq(%d) (appended %d)", got, s, app)
 	}
+	w.ackedHeld(s)
 	if s == app {
 		w.classes["ack-everything(drained)"]++
 	}
@@ -571,6 +606,7 @@ func (w *world) opAck() {
 func (w *world) opGC() {
 	w.logf("gc")
 	w.q.GC()
+	w.noteHeld("gc")
 }
 
 // opPutTooBig: a message above the documented limit (one data page) is refused and consumes
@@ -589,6 +625,7 @@ func (w *world) opPutTooBig() {
 		w.fatalf("a refused append moved the appended sequence from %d to %d", before, after)
 	}
 	w.classes["put-above-limit-refused"]++
+	w.noteHeld("refused-append")
 }
 
 // opCrashPut appends one message while a directory image is taken around every store of the
@@ -624,7 +661,15 @@ func (w *world) opCrashPut(all bool) {
 		im.Want = func(p crash.Point) bool { return want[p.Seq] }
 	}
 	im.Begin(len(w.ops), "put")
-	qsim.SetHook(im.Hook)
+	var storeHeldErr error
+	qsim.SetHook(func(op, path string, before bool) {
+		im.Hook(op, path, before)
+		// between any two stores of the append the retained slices read as before
+		if storeHeldErr == nil && len(w.held) > 0 {
+			storeHeldErr = w.peekHeld(fmt.Sprintf("inside an append (%s %s, before=%v)", op, filepath.Base(filepath.Dir(path)), before))
+			w.classes["held-reverified-between-the-stores-of-an-append"]++
+		}
+	})
 	before := w.okPuts
 	rolled := w.room() < m.size
 	errPut := w.putMsg(m)
@@ -632,6 +677,9 @@ func (w *world) opCrashPut(all bool) {
 	im.End()
 	if errPut != nil {
 		w.fatalf("%v", errPut)
+	}
+	if storeHeldErr != nil {
+		w.fatalf("%v", storeHeldErr)
 	}
 	pts := im.Points
 	var idx []int
@@ -699,6 +747,28 @@ func (w *world) recoverImage(p crash.Point, putsBefore int, inflight msg) {
 	if app == int64(putsBefore) && assigned[app] != inflight.id && rq.AcknowledgedSeq() < app {
 		w.fatalf("image %s: sequence %d is visible but does not hold the append in flight", p, app)
 	}
+	// a reader of the recovered queue keeps the newest messages it got (up to 4) while the queue is
+	// appended to; nothing is acknowledged / collected / closed before the last look at them
+	var kept []*heldMsg
+	for s := app; s > rq.AcknowledgedSeq() && len(kept) < 4; s-- {
+		m := w.byID[assigned[s]]
+		if m.sparse() {
+			continue
+		}
+		data, err := rq.Get(s)
+		if err != nil || !m.equal(data) {
+			w.fatalf("image %s: Get(%d) after recovery: err=%v, %d bytes %s, want message %d (%d bytes)", p, s, err, len(data), head(data), m.id, m.size)
+		}
+		kept = append(kept, &heldMsg{seq: s, m: m, data: data, want: m.bytes(), step: len(w.ops)})
+		for _, h := range kept {
+			if !h.intact(true) {
+				w.fatalf("image %s: %s after Get(%d) of the recovered queue", p, h.describe(), s)
+			}
+		}
+	}
+	if len(kept) >= 2 {
+		w.classes["recovered-image-reader-holds>=2"]++
+	}
 	// keep appending on the recovered queue (the first new message has a boundary size in two of
 	// three images): earlier messages must stay intact
 	byID := map[uint64]msg{}
@@ -722,6 +792,11 @@ func (w *world) recoverImage(p crash.Point, putsBefore int, inflight msg) {
 		if err := scan(rq, byID, assigned, &pending, fmt.Sprintf("image %s after %d new appends", p, i+1)); err != nil {
 			w.fatalf("%v", err)
 		}
+		for _, h := range kept {
+			if !h.intact(true) {
+				w.fatalf("image %s after %d new appends: %s", p, i+1, h.describe())
+			}
+		}
 	}
 }
 
@@ -730,11 +805,13 @@ func newWorld(t *rapid.T, prefix string) (*world, func()) {
 	if err != nil {
 		t.Fatalf("harness: %v", err)
 	}
-	w := &world{t: t, dir: filepath.Join(dir, "q"), byID: map[uint64]msg{}, assigned: map[int64]uint64{}, classes: map[string]int{}, lastSize: -1}
+	w := &world{t: t, dir: filepath.Join(dir, "q"), byID: map[uint64]msg{}, assigned: map[int64]uint64{}, classes: map[string]int{}, lastSize: -1,
+		heldEvents: map[string]bool{}, pageOf: map[int64]int64{}}
 	installSeams(w)
 	return w, func() {
 		uninstallSeams()
 		bigBusy = false
+		w.held = nil
 		if w.q != nil {
 			w.q.Close()
 		}
@@ -778,6 +855,11 @@ func runHistory(t *rapid.T, thorough bool) {
 		"gc":             func(t *rapid.T) { w.t = t; w.opGC() },
 		"gcInterleaved":  func(t *rapid.T) { w.t = t; w.opGCInterleaved() },
 		"gcInterleaved2": func(t *rapid.T) { w.t = t; w.opGCInterleaved() },
+		"getAndHold":     func(t *rapid.T) { w.t = t; w.opGetAndHold() },
+		"getAndHold2":    func(t *rapid.T) { w.t = t; w.opGetAndHold() },
+		"getAndHold3":    func(t *rapid.T) { w.t = t; w.opGetAndHold() },
+		"release":        func(t *rapid.T) { w.t = t; w.opRelease() },
+		"ackBelowHeld":   func(t *rapid.T) { w.t = t; w.opAckBelowHeld() },
 		"":               func(t *rapid.T) { w.t = t; w.check("after step") },
 	})
 	w.t = t
@@ -787,7 +869,7 @@ func runHistory(t *rapid.T, thorough bool) {
 	w.opPut()
 	w.check("after final append")
 	nt := w.nt > 0 || (w.classes["overlapping-put"] > 0 && w.classes["reopen"] > 1) || w.classes["gc-interleaved-with-appends"] > 0 ||
-		w.classes["fault-put-failed"] > 0
+		w.classes["fault-put-failed"] > 0 || w.heldNonTrivial()
 	for c, n := range w.classes {
 		ev.Class("TestQueueHistory", c, n)
 	}
@@ -827,6 +909,10 @@ func TestRollOver(t *testing.T) {
 			total += size
 			if rapid.IntRange(0, 2).Draw(t, "small") == 0 {
 				w.opPut()
+			}
+			if rapid.IntRange(0, 1).Draw(t, "hold") == 0 {
+				w.check("before a reader gets messages")
+				w.holdSome()
 			}
 			switch rapid.IntRange(0, 5).Draw(t, "between") {
 			case 0:
